@@ -92,6 +92,7 @@ func (r *TaskRunner) SetVariables(vars variables.Container) *TaskRunner {
 // Run run provided task.
 // TaskRunner first compiles task into linked list of Jobs, then passes those jobs to Executor
 func (r *TaskRunner) Run(t *task.Task) error {
+	verifYield("run-enter", t)
 	defer func() {
 		r.cancelMutex.RLock()
 		if r.canceling {
